@@ -1601,7 +1601,7 @@ impl Property for C13 {
     }
 
     fn rule_text(&self) -> String {
-        "(1) the real tokio and threaded clients (public new_tokio_client / new_threaded_client) on an in-memory transport whose behaviour is a generated script: each write accepts 1..n bytes or returns Pending / WouldBlock k times, each read returns a fragment of 1..m bytes, the reference broker lives inside the transport; 1-13 operations (QoS0/1/2 publishes up to 9 kB, subscribe, unsubscribe) and 0-3 inbound publishes; either all operations complete and the received byte stream is parsed, or close() races submissions from 1-3 threads with generated spin delays; (2) the threaded WebSocket stream adapter over hand-framed server messages of sizes {1,125,126,4095,4096,4097,10000,70000,...}, several per read, one byte at a time, WouldBlock between frames, ping frames in between, read buffers {1,7,100,4096,5000}; (3) the adapter's write side over a transport that accepts partially or would block; oracles: the transport receives exactly the submitted operations once, in order, content intact; inbound messages surface once in wire order; every operation has exactly one result, in particular once the event loop has exited after close(); adapter reads == concatenation of payloads; adapter writes reach the peer exactly once; non-trivial = >= 3 partial writes, a WouldBlock, submissions racing close(), a message larger than the read buffer or several messages per read; distinct = hash of the case".to_string()
+        "(1) the real tokio and threaded clients (public new_tokio_client / new_threaded_client) on an in-memory transport whose behaviour is a generated script: each write accepts 1..n bytes or returns Pending / WouldBlock k times, each read returns a fragment of 1..m bytes, the reference broker lives inside the transport; 1-13 operations (QoS0/1/2 publishes up to 9 kB, subscribe, unsubscribe) and 0-3 inbound publishes; either all operations complete and the received byte stream is parsed, or close() races submissions from 1-3 threads with generated spin delays; (1b) the same clients with a fresh transport per connection where the first 1-3 connections fail after k accepted bytes (write error / end of stream / read error; k in 0..20000, so inside the CONNECT, between packets or mid-packet) and the client reconnects (2 ms period, preserve-all offline policy): per connection the received bytes parse into complete packets starting with exactly one CONNECT, only faulted connections may end mid-packet, every operation completes successfully and was received completely somewhere, no connection is dropped without a transport fault; (2) the threaded WebSocket stream adapter over hand-framed server messages of sizes {1,125,126,4095,4096,4097,10000,70000,...}, several per read, one byte at a time, WouldBlock between frames, ping frames in between, read buffers {1,7,100,4096,5000}; (3) the adapter's write side over a transport that accepts partially or would block; oracles: the transport receives exactly the submitted operations once, in order, content intact; inbound messages surface once in wire order; every operation has exactly one result, in particular once the event loop has exited after close(); adapter reads == concatenation of payloads; adapter writes reach the peer exactly once; non-trivial = >= 3 partial writes, a WouldBlock, submissions racing close(), a transport fault after the handshake or mid-packet, >= 3 connections, a message larger than the read buffer or several messages per read; distinct = hash of the case".to_string()
     }
 
     fn assumptions(&self) -> Vec<String> {
